@@ -44,7 +44,7 @@ func c08GenProgram(s *kernel.Stream, spec *PoolSpec, keyRange, maxU int) (string
 		dir = " -r"
 	}
 	filt := func() string { return GenPred(s, spec, keyRange, maxU, 1) }
-	switch s.Pick(4, 3, 3, 3, 2, 2, 2, 2, 2, 2) {
+	switch s.Pick(4, 3, 3, 3, 2, 2, 2, 2, 2, 2, 3, 3, 2, 3, 3) {
 	case 0: // pool-key order + filter, then explicit sort on the unique u
 		return fmt.Sprintf("from p1 | %s | sort u", filt()), "ordered"
 	case 1: // plain scan: pool-key order, ties compared as a multiset per key
@@ -63,6 +63,17 @@ func c08GenProgram(s *kernel.Stream, spec *PoolSpec, keyRange, maxU int) (string
 		return fmt.Sprintf("from p1 | sort u | tail %d", s.Range(1, 12)), "ordered"
 	case 8:
 		return fmt.Sprintf("from p1 | %s | count()", filt()), "multiset"
+	case 10: // partials holding sets of a union type (mixed-key pools)
+		return fmt.Sprintf("from p1 | union(%s), count() by d", key), "multiset"
+	case 11: // an explicit sort on a nullable, possibly mixed-type field, either way round
+		// (pad is absent from most records).
+		return fmt.Sprintf("from p1 | sort%s%s %s, u", []string{"", " -r"}[s.Intn(2)], []string{"", " -nulls first"}[s.Intn(2)], []string{key, "pad"}[s.Intn(2)]), "ordered"
+	case 13: // single-key sort the optimizer may push into the legs; x is unique or null
+		return fmt.Sprintf("from p1 | put x:=d>0 ? u : null | sort%s%s x | cut x", []string{"", " -r"}[s.Intn(2)], []string{"", " -nulls first", " -nulls last"}[s.Intn(3)]), "ordered"
+	case 14: // single-key sort on the pool key, which the optimizer may fold into the scan's merge
+		return fmt.Sprintf("from p1 | sort%s%s %s", []string{"", " -r"}[s.Intn(2)], []string{"", " -nulls first", " -nulls last"}[s.Intn(3)], key), "keyorder"
+	case 12:
+		return "from p1 | avg(d), and(d>0), or(d>2), min(u) by d2:=d%3 | sort d2", "ordered"
 	default:
 		return fmt.Sprintf("from p1 | cut u, %s | sort u | head %d", key, s.Range(1, 30)), "ordered"
 	}
